@@ -35,7 +35,7 @@ LEVEL = 'exploration'
 ERR = list(ref.ERRORS)
 
 NUMBERS = [0, 1, -1, 2, 3.0, -8, 64, 0.5, -2.5, -0.0, 1e-3, 999999.5, -1000000]
-TEXTS = ['', 'abc', 'ABC', 'Abd', 'a_c', '3', ' 3 ', '1e2', '-0.5', 'TRUE']
+TEXTS = ['', 'abc', 'ABC', 'Abd', 'a_c', '3', ' 3 ', '1e2', '-0.5', 'TRUE', '\u00df', 'ss']     # (sharp s: lower() and casefold() differ)
 POOL = NUMBERS + TEXTS + [True, False, None] + ERR
 # texts on which only the cheap routes run: python-only / locale-only numeric spellings
 HOSTILE_TEXT = ['inf', 'nan', '-Infinity', 'false', '1_0', '0x10', '1,000', '$3', '3%', '1/2',
@@ -45,7 +45,7 @@ HOSTILE_TEXT = ['inf', 'nan', '-Infinity', 'false', '1_0', '0x10', '1,000', '$3'
                 # text that means something to str.format / % / a regular expression
                 '{x}', 'a{', '}', '{}', '{0}', '%s', '%(a)s', '\\1', '$1']
 ORDER_POOL = [v for v in POOL if ref.kind(v) not in ('error', 'blank')]
-TRIPLE_POOL = [0, -1, 2, 0.5, -0.0, 3.0, '', 'abc', 'ABC', 'Abd', 'a_c', '3', ' 3 ', True, False]
+TRIPLE_POOL = [0, -1, 2, 0.5, -0.0, 3.0, '', 'abc', 'ABC', 'Abd', 'a_c', '3', ' 3 ', True, False, '\u00df', 'ss', 'SS']
 
 PY_OP = {'+': 'Add', '-': 'Sub', '*': 'Mult', '/': 'Div', '^': 'Pow', '&': 'BitAnd',
          '=': 'Eq', '<>': 'NotEq', '<': 'Lt', '<=': 'LtE', '>': 'Gt', '>=': 'GtE'}
